@@ -363,3 +363,36 @@ def syncNoPostSep : Nat → Sync → Option Sync
       syncNoPostSep fuel { st with main := a.2, cp := st.cp + countChars a.1, pushed := st.pushed ++ a.1 }
 
 end C14
+
+namespace C14
+
+/-- Specification of the positions at list level: the absolute letter offsets (letters of the
+nodes before the word + position) of every allowed break of every word the pass rebuilds, in
+order. Same traversal as `hyphListG`; `acc` = letters before the head of the list. -/
+def expectedG (lhm rhm : Int) (liang : List Nat → List Nat) : Nat → List Item → Nat → List Nat
+  | 0, _, _ => []
+  | _, [], _ => []
+  | fuel + 1, x :: xs, acc =>
+    if !x.isGlue then expectedG lhm rhm liang fuel xs (acc + (lettersI x).length)
+    else
+      let r := seek false xs 0
+      let skipped := xs.take r.1
+      let rest := xs.drop r.1
+      let accW := acc + (lettersI x).length + (lettersL skipped).length
+      let cont := expectedG lhm rhm liang fuel rest accW
+      match r.2 with
+      | none => cont
+      | some f =>
+        let g := gather f rest [] 0
+        if g.1.isEmpty then cont
+        else if !terminatorOk (rest.drop g.2) then cont
+        else
+          let pos := wordPositions lhm rhm g.1.length (liang g.1)
+          if pos.isEmpty then cont
+          else pos.map (· + accW) ++ expectedG lhm rhm liang fuel (rest.drop g.2) (accW + g.1.length)
+
+/-- All allowed break positions of a list, as absolute letter offsets. -/
+def expectedM (lhm rhm : Int) (liang : List Nat → List Nat) (l : List Item) : List Nat :=
+  expectedG lhm rhm liang (l.length + 1) l 0
+
+end C14
